@@ -168,10 +168,13 @@ NOTIFIED_ALL = ('trace_len() == old(trace_len()) + len(self._upstream) and '
                 'all(trace_kind(old(trace_len()) + j) == fn_id("space_available_downstream") and '
                 '    trace_recv(old(trace_len()) + j) is self._upstream[j] for j in range(len(self._upstream)))')
 PT_ROUTERS = ['PartFlowController', 'DecisionGate']
+# frame of the shared notification loop (handlers.py): the three handler fields do not exist in a pass-through device,
+# they are listed only because the loop spec (one per function, for all classes) havocs them
+NOTIFY_MOD = ['self._waiting_for_downstream_space', 'self._cycle_time', 'self._next_cycle_time_offset', '$trace']
 contract('PartFlowController.notify_upstream_of_available_space', props=['C03', 'C08'], for_cls=PT_ROUTERS, args={},
-         ensures={'every_upstream_is_notified_once_in_order': NOTIFIED_ALL}, modifies=['$trace'])
+         ensures={'every_upstream_is_notified_once_in_order': NOTIFIED_ALL}, modifies=NOTIFY_MOD)
 contract('PartFlowController.space_available_downstream', props=['C03', 'C08'], for_cls=PT_ROUTERS, args={},
-         ensures={'notification_is_forwarded_to_every_upstream_once_in_order': NOTIFIED_ALL}, modifies=['$trace'])
+         ensures={'notification_is_forwarded_to_every_upstream_once_in_order': NOTIFIED_ALL}, modifies=NOTIFY_MOD)
 
 contract('PartFlowController.block_input.setter', props=['C08', 'C03'], for_cls=PT_ROUTERS, args={'is_blocked': 'bool'},
          ensures={'C08/flag_is_set': 'self._block_input == is_blocked',
@@ -180,4 +183,12 @@ contract('PartFlowController.block_input.setter', props=['C08', 'C03'], for_cls=
                   'C03,C08/blocking_notifies_nobody': 'implies(is_blocked, trace_len() == old(trace_len()))',
                   'C03,C08/unblocking_notifies_every_upstream_once_in_order':
                       f'implies(old(self._block_input) and not is_blocked, {NOTIFIED_ALL})'},
-         modifies=['self._block_input', '$trace'])
+         modifies=['self._block_input'] + NOTIFY_MOD)
+
+# The loop of notify_upstream_of_available_space has ONE invariant set for every class (loop specs are keyed by
+# function): the handler-specific conjuncts declared in handlers.py are made conditional on the class of self so that the
+# same (not redeclared) loop spec also serves the pass-through classes, which lack those fields.
+_sp = SPECS.loops[('PartFlowController.notify_upstream_of_available_space', 1)]
+_sp.invariants = [(n_, t_ if 'self._' not in t_.replace('self._upstream', '') else
+                   'implies(typed(self, "PartHandler"), %s)' % t_.replace('self._', 'cast(self, "ref:PartHandler")._'))
+                  for n_, t_ in _sp.invariants]
